@@ -226,7 +226,7 @@ func (p *gcpPicker) getLeastBusySubConnRef() (*subConnRef, error) {
 	if p.gb.cfg.GetChannelPool().GetMaxSize() == 0 || p.gb.getConnectionPoolSize() < int(p.gb.cfg.GetChannelPool().GetMaxSize()) {
 		// Ask balancer to create new subconn when all current subconns are busy and
 		// the connection pool still has capacity (either unlimited or maxSize is not reached).
-		p.gb.newSubConn()
+		p.gb.newSubConnIfBelow(int(p.gb.cfg.GetChannelPool().GetMaxSize()))
 
 		// Let this picker return ErrNoSubConnAvailable because it needs some time
 		// for the subconn to be READY.
